@@ -5,6 +5,7 @@ configuration, with / without cache, filesystem and memory), observed at the fil
 (audit events + tree snapshots), plus null storage and null runner."""
 import os
 import random
+import shutil
 
 from . import common as C
 from . import backend_driver as BD
@@ -147,6 +148,11 @@ def run_function_level(m, scratch, rng, rep, n_seq):
             fnmod.n0(fail_spec)
         except ValueError:
             pass
+        moved = s % 2 == 1
+        if moved:
+            # the populated store is moved (mounted elsewhere) before it is opened read-only
+            shutil.move(root, root + "-moved")
+            root = root + "-moved"
         snap = fnlib.tree_snapshot(root)
         for variant in ("arg", "cfg_cache"):
             ro = open_readonly(m, variant, root, 4096)
@@ -163,7 +169,12 @@ def run_function_level(m, scratch, rng, rep, n_seq):
                                   {"variant": variant, "populate": pre, "spec": sp})
                     continue
                 ran = [e for e in tr.execs() if e[1] == "n0"]
-                if sp["id"] in expect:
+                if sp["id"] in expect and moved:
+                    # whether a relocated store still finds its entries is not the property's business; it must answer correctly
+                    if v != expect[sp["id"]] or len(ran) > 1:
+                        rep.violation("C19:readonly-memoized-call-not-served", "call through a relocated read-only store returned %r (expected %r), body ran %d times" % (v, expect[sp["id"]], len(ran)),
+                                      {"variant": variant, "populate": pre, "spec": sp, "relocated": True})
+                elif sp["id"] in expect:
                     if v != expect[sp["id"]] or ran:
                         rep.violation("C19:readonly-memoized-call-not-served",
                                       "memoized call through read-only store returned %r (expected %r), body ran %d times" % (v, expect[sp["id"]], len(ran)),
@@ -199,7 +210,10 @@ def run_function_level(m, scratch, rng, rep, n_seq):
                     elif what == "forget_all":
                         fnmod.n0.forget_all()
                     elif what == "forget_exceptions_recursively":
-                        fnmod.n0.memento(fail_spec).forget_exceptions_recursively()
+                        mm_ = fnmod.n0.memento(fail_spec)
+                        if mm_ is None:
+                            continue            # (a relocated store may not find the entry at all)
+                        mm_.forget_exceptions_recursively()
                     else:
                         fnmod.n0.put_metadata("k", b"v", specs[0])
                     rep.violation("C19:%s-accepted-readonly" % what, "%s through a read-only store was not rejected" % what,
@@ -214,7 +228,7 @@ def run_function_level(m, scratch, rng, rep, n_seq):
             if muts or fnlib.tree_snapshot(root) != snap:
                 rep.violation("C19:function-level-mutation-through-readonly",
                               "calls through a read-only cluster changed the store: %r" % (muts[:3],),
-                              {"variant": variant, "populate": pre})
+                              {"variant": variant, "populate": pre, "relocated": moved})
         # null storage: never memoized, body runs every time
         fnlib.set_env(m, root, {"fc": (NullStorageBackend(), None)})
         for sp in specs[:2]:
